@@ -1063,7 +1063,12 @@ make_LayoutBuilder(const py::handle& m, const std::string& name) {
       .def("begin_list", &ak::LayoutBuilder::begin_list)
       .def("end_list", &ak::LayoutBuilder::end_list)
       .def("tag", [](ak::LayoutBuilder& self, int64_t tag) -> void {
-        self.tag(tag);
+        if (tag < 0  ||  tag > 127) {
+          throw std::invalid_argument(
+            std::string("LayoutBuilder tag must be between 0 and 127")
+            + FILENAME(__LINE__));
+        }
+        self.tag((int8_t)tag);
       })
       .def("debug_step",
            [](const ak::LayoutBuilder& self) -> void {
